@@ -27,6 +27,7 @@ type DBPlan struct {
 	Backend   string   `json:"backend"`
 	Conns     [][]DMsg `json:"conns"`
 	Writes    []DWrite `json:"writes,omitempty"`
+	Shadow    bool     `json:"shadow,omitempty"`     // the database keeps deleted records (shadow delete)
 	Veto      bool     `json:"veto,omitempty"`       // a pre-put hook rejects every write to one key
 	SlowQuery int      `json:"slow_query,omitempty"` // >0: this many extra records are stored, and the client of the first connection stops reading for a few seconds after the first record of its first request (a query or qsub) arrived
 	WS        bool     `json:"ws,omitempty"`         // the connections are websocket connections to the package's websocket handler (send queue, writer and handler workers) instead of CreateDatabaseAPI with a send function
@@ -69,13 +70,13 @@ type Rec struct {
 	S string
 }
 
-var dKeys = []string{"testdb:json/a", "testdb:json/b", "testdb:struct/c", "testdb:raw/d", "testdb:missing/e", "testdb:json/new1", "testdb:json/new2", "nodb:x", "testdb:", "bad key", "lazydb:json/new1", "lazydb:json/new2"}
+var dKeys = []string{"testdb:json/a", "testdb:json/b", "testdb:struct/c", "testdb:raw/d", "testdb:missing/e", "testdb:json/new1", "testdb:json/new2", "nodb:x", "testdb:", "bad key", "lazydb:json/new1", "lazydb:json/new2", "testdb:json/secret"}
 var dQueries = []string{"query testdb:", "query testdb:json/", "query testdb:json/ where S sameas alpha", "query testdb:raw", "query nodb:", "query testdb: where (", "nonsense", "query testdb:json/ where N exists", "", "query lazydb:"}
-var dBodies = []string{`J{"N":"w1","S":"alpha"}`, `J{"N":"w2","S":"beta","X":{"y":[1,2,3]}}`, `J{}`, `J[1,2]`, `J"str"`, `Jnot json`, `J`, ``, `C` + "\xa1aNbw3", `{"S":"inserted"}`, `{"S":{"deep":1}}`, `[]`, `{"":1}`, `5`, `J{"N":"w|4","S":"al|pha|"}`, `J{"N":"|","S":"alpha"}`}
+var dBodies = []string{`J{"N":"w1","S":"alpha"}`, `J{"N":"w2","S":"beta","X":{"y":[1,2,3]}}`, `J{}`, `J[1,2]`, `J"str"`, `Jnot json`, `J`, ``, `C` + "\xa1aNbw3", `{"S":"inserted"}`, `{"S":{"deep":1}}`, `[]`, `{"":1}`, `5`, `J{"N":"w|4","S":"al|pha|"}`, `J{"N":"|","S":"alpha"}`, `Shello`, "\x01raw bytes", `Mxyz`, `Ya: 1`}
 var dGaps = []time.Duration{0, time.Millisecond, 5 * time.Millisecond, 50 * time.Millisecond}
 
 func genC13(rng *rand.Rand, tier string) *DBPlan {
-	p := &DBPlan{Backend: []string{"hashmap", "bbolt"}[rng.IntN(2)], Veto: rng.IntN(3) == 0}
+	p := &DBPlan{Backend: []string{"hashmap", "bbolt"}[rng.IntN(2)], Veto: rng.IntN(3) == 0, Shadow: rng.IntN(2) == 0}
 	defer func() {
 		p.WS = rng.IntN(3) == 0
 		switch os.Getenv("VERIF_C13_WS") { // exploration aid
@@ -269,7 +270,7 @@ func execC13(p *DBPlan, rc *simkit.RunCtx) {
 		rc.Fail("C13.harness", "database init failed", err.Error())
 		return
 	}
-	if _, err := database.Register(&database.Database{Name: "testdb", Description: "sim", StorageType: p.Backend}); err != nil {
+	if _, err := database.Register(&database.Database{Name: "testdb", Description: "sim", StorageType: p.Backend, ShadowDelete: p.Shadow}); err != nil {
 		rc.Fail("C13.harness", "register failed", err.Error())
 		return
 	}
@@ -298,6 +299,10 @@ func execC13(p *DBPlan, rc *simkit.RunCtx) {
 	put(dKeys[2], sr)
 	rw, _ := record.NewWrapper(dKeys[3], &record.Meta{}, dsd.RAW, []byte("raw bytes"))
 	put(dKeys[3], rw)
+	// a record the API may not see (it is neither local nor internal)
+	if err := database.NewInterface(&database.Options{Local: true, Internal: true, AlwaysMakeSecret: true}).Put(wj(dKeys[12], "seed-secret", "alpha")); err != nil {
+		rc.Fail("C13.harness", "seed put failed", err.Error())
+	}
 	for i := 0; i < p.SlowQuery; i++ {
 		k := fmt.Sprintf("testdb:json/bulk%02d", i)
 		put(k, wj(k, fmt.Sprintf("bulk-%d", i), "alpha"))
